@@ -770,7 +770,14 @@ def tokens_are_the_words(ctx: Ctx, rep: Report, rid: str = "R09.14") -> None:
     param = f.params[1]
     splits = [x for x in own_nodes(f.node) if isinstance(x, ast.Call) and isinstance(x.func, ast.Attribute) and x.func.attr == "split" and isinstance(x.func.value, ast.Name)]
     rep.instance()
-    rep.require(bool(splits), "Port.line setter no longer splits its text into tokens")
+    # `h.init_line(line).split()`: the package's normaliser applied to the parameter, split at once - nothing in between
+    chained = [x for x in own_nodes(f.node) if isinstance(x, ast.Call) and isinstance(x.func, ast.Attribute) and x.func.attr == "split" and isinstance(x.func.value, ast.Call) and isinstance(x.func.value.func, (ast.Attribute, ast.Name)) and (x.func.value.func.attr if isinstance(x.func.value.func, ast.Attribute) else x.func.value.func.id).startswith("init_") and all(isinstance(a, ast.Name) and a.id == param for a in x.func.value.args)]
+    if not splits and chained:
+        rep.ok("Port.line setter: tokens", "the normalised text split at blanks, nothing rewritten", where=where(f, chained[0]))
+        return
+    if not splits:
+        rep.note(f"{rid} no `<text>.split()` found in Port.line setter (tokens made elsewhere?) - not judged")
+        return
     bad = None
     for sp_ in splits:
         var = sp_.func.value.id
